@@ -86,6 +86,7 @@ const (
 	tsExplicitEmpty // WithTargetDir("") given explicitly, target = working directory
 	tsTrailingSlash // the target path ends in "/"
 	tsRelDot        // a relative target "./target/." from the parent directory
+	tsViaLink       // the target is addressed through a symbolic link to it
 	numTS
 )
 
@@ -97,7 +98,7 @@ func evalC06(c *Ctx, cs *Case) {
 	doc := gen.Spell(f, gen.Canonical)
 	nontrivial := merged.Size() >= 2
 	extIdx := allExt()
-	states := []int{tsEmpty, tsMissing, tsPopulated, tsDefaultCwd, tsExplicitEmpty, tsTrailingSlash, tsRelDot}
+	states := []int{tsEmpty, tsMissing, tsPopulated, tsDefaultCwd, tsExplicitEmpty, tsTrailingSlash, tsRelDot, tsViaLink}
 	routes := []int{0, 1, 2, 3}
 	if cs.Kind != "exhaustive" {
 		extIdx = []int{r.Intn(len(ExtLists)), r.Intn(len(ExtLists))}
@@ -129,9 +130,9 @@ func evalC06(c *Ctx, cs *Case) {
 			masks = []int{1 << r.Intn(n), 1<<(n-1) | 1}
 		}
 		for _, m := range masks {
-			for _, asFile := range []bool{false, true} {
+			for kind := 0; kind < numPre; kind++ {
 				for _, ri := range []int{0, 1} {
-					c06Existing(c, cs, f, merged, doc, fkey, m, asFile, mkdirRoutes[ri])
+					c06Existing(c, cs, f, merged, doc, fkey, m, kind, mkdirRoutes[ri])
 				}
 			}
 		}
@@ -162,6 +163,9 @@ func c06Target(j *mon.Jail, st int) (target, prefix string, allowed []string) {
 		return j.Target + "/", j.Rel, nil
 	case tsRelDot:
 		return "./target/.", j.Rel, nil
+	case tsViaLink:
+		os.Symlink("target", j.Target+"-link")
+		return j.Target + "-link", j.Rel, nil
 	}
 	return j.Target, j.Rel, nil
 }
@@ -222,7 +226,7 @@ func c06Success(c *Ctx, cs *Case, f, merged model.Forest, doc, fkey string, ei i
 	defer func() { cs.Entry, cs.Opt = "", nil }()
 	c.Eval(gen.HashString(fkey+"\x00"+rt.Name+strconv.Itoa(ei*10+st)), nontrivial)
 	c.SetAdd("entries", rt.Name)
-	c.SetAdd("target_states", []string{"empty", "missing-nested", "pre-populated", "default-cwd", "explicit-empty-string", "trailing-slash", "relative-dot"}[st])
+	c.SetAdd("target_states", []string{"empty", "missing-nested", "pre-populated", "default-cwd", "explicit-empty-string", "trailing-slash", "relative-dot", "via-symlink"}[st])
 	diff := mon.Diff(before, after)
 	det := map[string]any{"forest": fkey, "doc": doc, "ext": exts, "state": st, "diff": diff}
 	for _, o := range outs {
@@ -259,7 +263,37 @@ func c06Success(c *Ctx, cs *Case, f, merged model.Forest, doc, fkey string, ei i
 	}
 }
 
-func c06Existing(c *Ctx, cs *Case, f, merged model.Forest, doc, fkey string, mask int, asFile bool, rt fsRoute) {
+// the ways a root can exist already
+const (
+	preDir = iota
+	preFile
+	preLinkDir      // a symbolic link to a directory outside the target
+	preLinkFile     // a symbolic link to a regular file outside the target
+	preLinkDangling // a symbolic link whose destination (outside the target) does not exist
+	numPre
+)
+
+var preNames = []string{"dir", "file", "symlink-to-dir", "symlink-to-file", "dangling-symlink"}
+
+// c06Preexist makes the root name exist in the target in the given way.
+func c06Preexist(j *mon.Jail, name string, kind int) {
+	p := filepath.Join(j.Target, name)
+	switch kind {
+	case preFile:
+		os.WriteFile(p, []byte("old"), 0o644)
+	case preDir:
+		os.MkdirAll(filepath.Join(p, "old-sub"), 0o755)
+		os.WriteFile(filepath.Join(p, "old-sub", "k"), []byte("k"), 0o644)
+	case preLinkDir:
+		os.Symlink("../sentinel-a", p)
+	case preLinkFile:
+		os.Symlink("../sentinel-file", p)
+	case preLinkDangling:
+		os.Symlink("../target-sibling/not-there", p)
+	}
+}
+
+func c06Existing(c *Ctx, cs *Case, f, merged model.Forest, doc, fkey string, mask int, kind int, rt fsRoute) {
 	j, err := mon.NewJail(c.TmpDir, true)
 	if err != nil {
 		c.Inconclusive(cs, "jail: "+err.Error())
@@ -267,28 +301,29 @@ func c06Existing(c *Ctx, cs *Case, f, merged model.Forest, doc, fkey string, mas
 	}
 	defer j.Remove()
 	for i, root := range merged {
-		if mask&(1<<i) == 0 {
-			continue
-		}
-		p := filepath.Join(j.Target, root.Name)
-		if asFile {
-			os.WriteFile(p, []byte("old"), 0o644)
-		} else {
-			os.MkdirAll(filepath.Join(p, "old-sub"), 0o755)
-			os.WriteFile(filepath.Join(p, "old-sub", "k"), []byte("k"), 0o644)
+		if mask&(1<<i) != 0 {
+			c06Preexist(j, root.Name, kind)
 		}
 	}
 	cs.Entry = rt.Name
-	cs.Opt = map[string]string{"mask": strconv.Itoa(mask), "as_file": strconv.FormatBool(asFile)}
+	cs.Opt = map[string]string{"mask": strconv.Itoa(mask), "pre": preNames[kind]}
+	c.SetAdd("preexisting_kinds", preNames[kind])
 	defer func() { cs.Entry, cs.Opt = "", nil }()
-	opts := fsOpts(j.Target, nil, false, false, false, false)
-	viaCwd := (mask+map[bool]int{true: 1, false: 0}[asFile])%3 != 0
+	// half of the cases configure extensions, so that a pre-existing root may be one that the
+	// call would create as a file
+	var exts []string
+	if (mask+kind+int(cs.Seed%2))%2 == 1 {
+		exts = ExtLists[3]
+	}
+	cs.Opt["ext"] = strings.Join(exts, ",")
+	opts := fsOpts(j.Target, exts, exts != nil, false, false, false)
+	viaCwd := (mask+kind)%3 != 0
 	if viaCwd {
 		// two thirds of the cases address the target as the working directory: default or WithTargetDir("")
 		if mask%2 == 0 {
-			opts = fsOpts("", nil, false, false, false, false)
+			opts = fsOpts("", exts, exts != nil, false, false, false)
 		} else {
-			opts = fsOpts(explicitEmptyTarget, nil, false, false, false, false)
+			opts = fsOpts(explicitEmptyTarget, exts, exts != nil, false, false, false)
 		}
 		old, _ := os.Getwd()
 		os.Chdir(j.Target)
@@ -305,33 +340,33 @@ func c06Existing(c *Ctx, cs *Case, f, merged model.Forest, doc, fkey string, mas
 			if errm == nil {
 				for i, root := range merged {
 					if mask&(1<<i) != 0 {
-						if asFile {
-							os.WriteFile(filepath.Join(jm.Target, root.Name), []byte("old"), 0o644)
-						} else {
-							os.MkdirAll(filepath.Join(jm.Target, root.Name, "old-sub"), 0o755)
-						}
+						c06Preexist(jm, root.Name, kind)
 					}
 				}
+				bm := jm.Snap()
 				cs.Entry = rt.Name + "[massive]"
 				cs.SetDoc(doc)
 				c.Rejournal(cs)
 				cs.Doc, cs.DocText = nil, ""
 				b0 := runtime.NumGoroutine()
-				mo := mkdirCall(rt, doc, nil, fsOpts(jm.Target, nil, false, false, true, false))
+				mo := mkdirCall(rt, doc, nil, fsOpts(jm.Target, exts, exts != nil, false, true, false))
 				c06Quiet.Quiesce(b0)
-				c.Eval(gen.HashString(fkey+"\x00existM"+rt.Name+strconv.Itoa(mask)+strconv.FormatBool(asFile)), true)
+				c.Eval(gen.HashString(fkey+"\x00existM"+rt.Name+strconv.Itoa(mask*8+kind)), true)
+				_, outside := mon.Under(mon.Diff(bm, jm.Snap()), jm.Rel)
 				if mo.Panic != nil {
 					c.Violation(cs, "panic", PanicSig(mo.Panic, mo.Stack), map[string]any{"forest": fkey, "doc": doc})
 				} else if !errors.Is(mo.Err, gtree.ErrExistPath) {
-					c.Violation(cs, "exist.wrong-error", "massive", map[string]any{"forest": fkey, "doc": doc, "mask": mask, "as_file": asFile, "err": errStr(mo.Err)})
+					c.Violation(cs, "exist.wrong-error", "massive", map[string]any{"forest": fkey, "doc": doc, "mask": mask, "pre": preNames[kind], "err": errStr(mo.Err)})
+				} else if len(outside) != 0 {
+					c.Violation(cs, "exist.changed-outside-target", "massive", map[string]any{"forest": fkey, "doc": doc, "mask": mask, "pre": preNames[kind], "outside": outside})
 				}
 				jm.Remove()
 				cs.Entry = rt.Name
 			}
 		}
-		c.Eval(gen.HashString(fkey+"\x00exist"+rt.Name+strconv.Itoa(mask)+strconv.FormatBool(asFile)), true)
+		c.Eval(gen.HashString(fkey+"\x00exist"+rt.Name+strconv.Itoa(mask*8+kind)), true)
 		c.Count("preexisting_cases", 1)
-		det := map[string]any{"forest": fkey, "doc": doc, "mask": mask, "as_file": asFile, "err": errStr(o.Err), "diff": mon.Diff(before, after)}
+		det := map[string]any{"forest": fkey, "doc": doc, "mask": mask, "pre": preNames[kind], "err": errStr(o.Err), "diff": mon.Diff(before, after)}
 		switch {
 		case o.Panic != nil:
 			c.Violation(cs, "panic", PanicSig(o.Panic, o.Stack), det)
@@ -349,9 +384,9 @@ func c06Existing(c *Ctx, cs *Case, f, merged model.Forest, doc, fkey string, mas
 		o := mkdirCall(rt, "", root, opts)
 		after := j.Snap()
 		diff := mon.Diff(before, after)
-		c.Eval(gen.HashString(fkey+"\x00existR"+rt.Name+strconv.Itoa(mask*8+i)+strconv.FormatBool(asFile)), true)
+		c.Eval(gen.HashString(fkey+"\x00existR"+rt.Name+strconv.Itoa((mask*8+i)*8+kind)), true)
 		c.Count("preexisting_cases", 1)
-		det := map[string]any{"forest": fkey, "root": root.Name, "mask": mask, "as_file": asFile, "err": errStr(o.Err), "diff": diff}
+		det := map[string]any{"forest": fkey, "root": root.Name, "mask": mask, "pre": preNames[kind], "err": errStr(o.Err), "diff": diff}
 		if o.Panic != nil {
 			c.Violation(cs, "panic", PanicSig(o.Panic, o.Stack), det)
 			continue
@@ -363,7 +398,7 @@ func c06Existing(c *Ctx, cs *Case, f, merged model.Forest, doc, fkey string, mas
 				c.Violation(cs, "exist.fs-changed", "", det)
 			}
 		} else {
-			want := expectedCreated(model.Merge(model.Forest{root}), nil, j.Rel)
+			want := expectedCreated(model.Merge(model.Forest{root}), exts, j.Rel)
 			if o.Err != nil {
 				c.Violation(cs, "mkdir.error-on-fresh-target", "", det)
 			} else if !sameStrings(diff, want) {
